@@ -361,7 +361,7 @@ Definition bind_object (c : wcfg) (w : res wval) (kv : option str * gval) : res 
   | Err e => Err e
   | Ok w' =>
       match fst kv with
-      | None => Err ETypeError   (* find_children(None) -> split_qname(None): 'NoneType' object is not subscriptable *)
+      | None => Ok w'   (* a tail entry: bind_object answers False, "Unassigned parsed object None", text dropped *)
       | Some key =>
           if existsb (str_eqb key) (c_typed c) then Err EUnsupported
           else if match_namespace (c_nss c) key then Ok (bind_wild_var (c_kind c) w' (snd kv))
@@ -598,10 +598,10 @@ Definition wstep (st : wstate) (e : wevent) : option wstate :=
   | WData d =>
       let value := encode_data d in
       let st1 := flush_start (match value with None => true | Some _ => false end) st in
+      (* every non-empty data is written inside the current element *)
       if truthy value then
-        if w_in_tail st1 then Some (mkW None (w_attrs st1) true value (w_sink st1))
-        else Some (mkW None (w_attrs st1) true (w_tail st1)
-                       (sink_chars (w_sink st1) (match value with Some s => s | None => [] end)))
+        Some (mkW None (w_attrs st1) true (w_tail st1)
+                  (sink_chars (w_sink st1) (match value with Some s => s | None => [] end)))
       else Some (mkW None (w_attrs st1) true (w_tail st1) (w_sink st1))
   | WEnd q =>
       let st1 := flush_start true st in
